@@ -11,6 +11,7 @@ import (
 	"fmt"
 
 	"github.com/zmap/zlint/v3"
+	"github.com/zmap/zlint/v3/lint"
 )
 
 // derTLV parses one TLV at b[off:], returning header length, content length.
@@ -174,6 +175,57 @@ func init() {
 					out.Sample(map[string]interface{}{"file": cc.File, "variant": kind, "signature_bytes": e - s, "lints_compared": len(base)})
 				}
 			}
+		}
+		// the framework's own reports: a registry of an embedding program with a lint that panics, one that returns a fixed
+		// finding and one whose configuration fails - what is reported for them (status and text) is the same for two
+		// certificates that differ in the signature value only
+		{
+			reg := lint.VerifNewRegistry()
+			var lgs [][]int
+			for i, sc := range []*Script{
+				{Name: "e_verif_panics", Desc: "d", Cite: "c", Src: "Community", Cfg: "none", App: "true", Exe: "panic", ExeMsg: "index out of range [0] with length 0"},
+				{Name: "e_verif_finds", Desc: "d", Cite: "c", Src: "Community", Cfg: "none", App: "true", Exe: "res", ExeStatus: 6, ExeDetails: "found"},
+				{Name: "e_verif_applies_panics", Desc: "d", Cite: "c", Src: "RFC5280", Cfg: "none", App: "panic", AppMsg: "nil map", Exe: "res", ExeStatus: 3},
+				{Name: "e_verif_config_fails", Desc: "d", Cite: "c", Src: "RFC5280", Cfg: "err", App: "true", Exe: "res", ExeStatus: 3},
+			} {
+				lgs = append(lgs, []int{})
+				sc.armed = true
+				_ = reg.RegisterCertificate(sc.certLint(&lgs[i]))
+			}
+			mockCompared := 0
+			for ti, t := range tgts {
+				if ti%40 != 0 {
+					continue
+				}
+				var ref map[string]resKey
+				for vi, sig := range [][]byte{nil, bytes.Repeat([]byte{0}, t.e-t.s), bytes.Repeat([]byte{0xff}, t.e-t.s)} {
+					der := append([]byte{}, t.cc.DER...)
+					if sig != nil {
+						copy(der[t.s:t.e], sig)
+					}
+					c, err := safeParseCert(der)
+					if err != nil {
+						continue
+					}
+					var got map[string]resKey
+					func() {
+						defer func() { recover() }()
+						got = resultsOf(zlint.LintCertificateEx(c, reg.Registry()))
+					}()
+					if vi == 0 {
+						ref = got
+						continue
+					}
+					mockCompared++
+					for n, r := range ref {
+						if got[n] != r {
+							out.Violate("C09|framework-report-depends-on-signature:"+n, fmt.Sprintf("the framework's report for %s on %s is %v with the issued signature and %v with another signature value of the same length", n, t.cc.File, r, got[n]),
+								map[string]interface{}{"file": t.cc.File, "lint": n}, r, got[n])
+						}
+					}
+				}
+			}
+			out.Stats["mock_registry_signature_comparisons"] = mockCompared
 		}
 		// through the command-line tool as well (DER on standard input): a verdict, or whether there is one at all, must
 		// not depend on the signature octets - in particular not on the last ones looking like text blanks
